@@ -21,7 +21,9 @@ RULE = ('cases = (route table, request, draws, upstream reads): 1-2 generated Re
         'methods x header sets (Host/Content-Length spellings) x bodies (plain, chunked), both settings of --rewrite-host-header, '
         'scripted random.choice, connect outcomes (ok/refused/unreachable), upstream responses in 1-4 segments (+EOF/reset); the real '
         'handler is driven through harness/sim.py; a malformed stream adds non-UTF-8 paths, empty URL lists, before_routing hooks that drop '
-        'or re-target the request, URLs with port 0 / userinfo. A case is non-trivial when a request reached an upstream '
+        'or re-target the request, URLs with port 0 / userinfo; a multi-connection stream runs 2-4 consecutive client connections in one '
+        'process against plugins written like the documented example (Url.from_bytes on a constant, edited in place) and against the '
+        'shipped proxy.plugin.ReverseProxyPlugin, each connection compared with what its request ALONE must produce. A case is non-trivial when a request reached an upstream '
         '(connect attempted and bytes delivered) or a literal/404 answer was produced; distinct = distinct (table, request, draws)')
 TRUSTED = ['Python re (route matching) enters the model as the oracle re_match; the harness computes the match table with the real re',
            'Url.from_bytes is not modelled here: the model takes the parsed components; every generated URL is compared with Url.from_bytes and urllib on every run',
@@ -199,6 +201,35 @@ def generate(rng, tier):
             plugins.insert(1, dict(before=None, routes=[dict(type='dynamic', regex=r'/get$', ret=dict(bytes=b'x'))]))
         cases.append(dict(kind='late-failure', rewrite=rng.random() < 0.5, plugins=plugins, request=rand_request(rng, rng.choice([b'/get', b'/get/12'])),
                           draws=[rng.randrange(0, 7) for _ in range(3)], connect=rng.choice(['ok', 'ok', 'unreach']), wrap='ok', reads=rand_reads(rng), cut=None))
+    # history across connections: 2-4 consecutive client connections handled by ONE process with the same plugin
+    # classes; dynamic routes written like the documented example (Url.from_bytes on a constant, then edited in place),
+    # static routes naming the same URL bytes, and the shipped proxy.plugin.ReverseProxyPlugin itself.  Each request is
+    # the first of its own connection; what it is sent upstream must not depend on the earlier connections.
+    def simple_req(path):
+        return dict(method=rng.choice([b'GET', b'GET', b'DELETE']), target=path, version=b'HTTP/1.1',
+                    headers=[[rng.choice(HOST_SPELLINGS), b'me.example']] + [list(h) for h in rng.sample(HDR_POOL[:4], rng.randrange(0, 3))],
+                    body=b'', chunked=False)
+    def conn(path):
+        return dict(request=simple_req(path), draws=[rng.randrange(0, 7) for _ in range(3)], connect='ok', reads=rand_reads(rng), cut=None)
+    for i in range(10 if quick else 200):
+        if i % 2 == 0:
+            plugins = 'shipped'
+            pool = [b'/get/1', b'/get/22', b'/get/7', b'/get/1', b'/get', b'/get', b'/nope', b'/get/x']
+        else:
+            base = rand_url(rng)
+            base['path'] = base['path'] or '/base'
+            op = rng.choice(['remainder', 'remainder', 'port'])
+            if base['port'] == 65535:
+                base['port'] = 8080          # the port-editing handler adds the captured number: stay a valid port
+            routes = [dict(type='dynamic', regex=r'/item/(\d+)$', ret=dict(mut=dict(base=base, op=op))),
+                      dict(type='static', regex=r'/plain$', urls=[dict(base)]),
+                      dict(type='dynamic', regex=r'/same/(\d+)$', ret=dict(mut=dict(base=dict(base), op='remainder')))]
+            rng.shuffle(routes)
+            plugins = [dict(before=None, routes=routes)]
+            pool = [b'/item/1', b'/item/22', b'/item/3', b'/plain', b'/plain', b'/same/5', b'/same/61', b'/other']
+        first = rng.choice([q for q in pool if re.search(rb'\d$', q)])
+        conns = [conn(first)] + [conn(rng.choice(pool)) for _ in range(rng.choice([1, 2, 3]))]
+        cases.append(dict(kind='multi-conn', rewrite=rng.random() < 0.5, plugins=plugins, conns=conns))
     # malformed stream
     for _ in range(30 if quick else 600):
         c = mk_case(rng, 'any', weird=True)
@@ -250,6 +281,19 @@ def mk_plugin_class(idx, spec):
         ret = dyn[pattern.pattern]
         if 'url' in ret:
             return Url.from_bytes(url_bytes(ret['url']))
+        if 'mut' in ret:
+            # the documented pattern (proxy/plugin/reverse_proxy.py): parse a constant, then edit the Url in place
+            choice = Url.from_bytes(url_bytes(ret['mut']['base']))
+            assert request.path
+            result = re.search(pattern, request.path.decode())
+            if not result or len(result.groups()) != 1:
+                raise HttpProtocolException('Invalid request')
+            g = result.groups()[0]
+            if ret['mut']['op'] == 'remainder':
+                choice.remainder += ('?id=%s' % g).encode()
+            else:
+                choice.port = (choice.port or 8000) + int(g)
+            return choice
         if 'bytes' in ret:
             return memoryview(ret['bytes'])
         if ret['exc'] == 'http':
@@ -287,7 +331,55 @@ def code_of(x):
     raise ValueError(x)
 
 
-_flag_cache = {}
+SHIPPED_DYNAMIC = r'/get/(\d+)$'
+
+def shipped_spec():
+    """the table of the shipped example plugin: static routes read from the class, the dynamic route as documented
+    ("/get/<int>" is served from http://httpbingo.org/get?id=<int>)"""
+    from proxy.plugin import ReverseProxyPlugin
+    routes = []
+    for r in ReverseProxyPlugin.routes(None):
+        if isinstance(r, tuple):
+            us = []
+            for ub in r[1]:
+                sp = urlsplit(ub.decode())
+                us.append(dict(scheme=sp.scheme, host=sp.hostname, port=sp.port, path=(sp.path + ('?' + sp.query if sp.query else '')) or None))
+            routes.append(dict(type='static', regex=r[0], urls=us))
+        else:
+            routes.append(dict(type='dynamic', regex=r, ret=dict(mut=dict(base=dict(scheme='http', host='httpbingo.org', port=None, path='/get'), op='remainder'))))
+    return [dict(before=None, routes=routes)]
+
+
+def resolve_plugins(plugins, path):
+    """what the table means for ONE request taken alone: in-place-editing handlers replaced by the Url they document"""
+    import copy
+    plugins = copy.deepcopy(shipped_spec() if plugins == 'shipped' else plugins)
+    try:
+        t = path.decode()
+    except UnicodeDecodeError:
+        t = None
+    for p in plugins:
+        for r in p['routes']:
+            if r['type'] == 'dynamic' and 'mut' in r['ret']:
+                m = r['ret']['mut']
+                u = dict(m['base'])
+                g = re.search(r['regex'], t) if t is not None else None
+                if g and len(g.groups()) == 1:
+                    if m['op'] == 'remainder':
+                        u['path'] = (u['path'] or '') + '?id=' + g.groups()[0]
+                    else:
+                        u['port'] = (u['port'] or 8000) + int(g.groups()[0])
+                r['ret'] = dict(url=u)
+    return plugins
+
+
+def subcase(case, k):
+    """connection k of a multi-connection case as an ordinary single-connection case (independence of history
+    is exactly what the model states: handle_route is a function of the request)"""
+    c = case['conns'][k]
+    return dict(kind=case['kind'], rewrite=case['rewrite'], plugins=resolve_plugins(case['plugins'], c['request']['target']),
+                request=c['request'], draws=c['draws'], connect=c.get('connect', 'ok'), wrap='ok', reads=c.get('reads', []), cut=c.get('cut'))
+
 
 def all_urls(case):
     for p in case['plugins']:
@@ -299,15 +391,33 @@ def all_urls(case):
                 yield r['ret']['url']
 
 
+def make_world(case):
+    """plugin classes + flags shared by every connection of the case (module-level state of /repo is shared anyway)"""
+    import sim
+    if case['plugins'] == 'shipped':
+        from proxy.plugin import ReverseProxyPlugin
+        classes = [ReverseProxyPlugin]
+    else:
+        classes = [mk_plugin_class(i, p) for i, p in enumerate(case['plugins'])]
+    args = ['--enable-reverse-proxy', '--log-level', 'c'] + (['--rewrite-host-header'] if case['rewrite'] else [])
+    return sim.make_flags(args=args, plugins=classes)
+
+
 def run_impl(case):
+    fl = make_world(case)
+    if 'conns' in case:
+        # several client connections, one after the other, handled by the same process / plugin classes / flags
+        outs = [_run_conn(subcase(case, k), fl) for k in range(len(case['conns']))]
+        return dict(conns=outs, snap=outs[0].get('snap'))
+    return _run_conn(case, fl)
+
+
+def _run_conn(case, fl):
     import sim
     from proxy.http import Url
     from proxy.http.server.web import HttpWebServerPlugin
     from proxy.common.constants import PROXY_AGENT_HEADER_VALUE, DEFAULT_BUFFER_SIZE, DEFAULT_DISABLE_HEADERS
     import logging
-    classes = [mk_plugin_class(i, p) for i, p in enumerate(case['plugins'])]
-    args = ['--enable-reverse-proxy', '--log-level', 'c'] + (['--rewrite-host-header'] if case['rewrite'] else [])
-    fl = sim.make_flags(args=args, plugins=classes)
     logging.disable(logging.CRITICAL)
     out = dict(agent=PROXY_AGENT_HEADER_VALUE, chunk_size=DEFAULT_BUFFER_SIZE, disable_headers=list(DEFAULT_DISABLE_HEADERS),
                rewrite_flag=bool(fl.rewrite_host_header), urls={}, snap=None, draws=0, wrap_log=[])
@@ -426,6 +536,9 @@ def match_table(case, out):
 
 
 def coq_term(case, out):
+    if 'conns' in case:
+        ts = [coq_term(subcase(case, k), o) for k, o in enumerate(out['conns'])]
+        return [t for t in ts if t is not None]
     if out.get('snap') is None:
         return None       # the request never reached the web server plugin: outside the model
     idx = 0
@@ -471,6 +584,8 @@ def coq_term(case, out):
 def model_expr(case):
     out = run_impl(case)
     t = coq_term(case, out)
+    if isinstance(t, list):
+        return C.coq_list('run_case (%s)' % x for x in t) if t else 'tt'
     return 'run_case (%s)' % t if t else 'tt'
 
 
@@ -537,7 +652,19 @@ def in_domain(case):
 
 
 def oracle(case, out):
-    # 0. Url.from_bytes agrees with the components the URL was generated from (and with urllib)
+    if 'conns' in case:
+        for k, o in enumerate(out['conns']):
+            f = oracle(subcase(case, k), o)
+            if f:
+                return 'connection %d of %d handled by one process (each is the first request of its own connection; earlier ones: %r): %s' % (
+                    k + 1, len(out['conns']), [c['request']['target'] for c in case['conns'][:k]], f)
+        return None
+    # the routing / forwarding statement first (more telling), then the URL parser cross-check
+    return _oracle_main(case, out) or _oracle_urls(case, out)
+
+
+def _oracle_urls(case, out):
+    # Url.from_bytes agrees with the components the URL was generated from (and with urllib)
     for u in all_urls(case):
         ub = url_bytes(u)
         x = out['urls'][ub.hex()]
@@ -554,6 +681,10 @@ def oracle(case, out):
         sp = urlsplit(ub.decode())
         if sp.hostname != u['host'].strip('[]').lower() or sp.port != u['port'] or sp.scheme != u['scheme']:
             return 'urllib disagrees with the generator on %r' % ub
+    return None
+
+
+def _oracle_main(case, out):
     if not in_domain(case):
         return None
     fired = expected_target(case)
@@ -650,6 +781,8 @@ def oracle(case, out):
 
 
 def nontrivial(case, out):
+    if 'conns' in case:
+        return any(nontrivial(subcase(case, k), o) for k, o in enumerate(out['conns']))
     return out.get('snap') is not None and (bool(out.get('connect_log')) and any(out.get('up', [])) or bool(out.get('client')))
 
 
@@ -661,6 +794,11 @@ def classify(case, out, failure):
 def shrink(case, fails):
     """greedy: drop reads / cut / headers / body / non-essential routes and URLs while the oracle still fails"""
     import copy
+    if 'conns' in case:
+        # a failure that depends on history inside the process cannot be shrunk inside this (already polluted)
+        # process: every candidate would fail.  The case is small (2-4 connections); keep it whole so that the
+        # replay reproduces from a fresh interpreter.
+        return case
     cur = copy.deepcopy(case)
 
     def attempt(mod):
